@@ -3,4 +3,5 @@
 set -e
 cd "$(dirname "$0")"
 /venv/bin/python tools/extract.py --repo "${VERIF_REPO:-/repo}" || true
-cd lean && lake build HC hcdriver
+/venv/bin/python tools/mkdrivers.py > /dev/null
+cd lean && lake build
